@@ -41,6 +41,32 @@ def known_sig(name):
     return (_SIGS or {}).get(name)
 
 
+def _sig_bag(sig):
+    """(sorted parameter types, return type) of a `fn(..) -> ..` signature string, lifetimes erased"""
+    import re
+    if not sig:
+        return None
+    t = re.sub(r"for<[^>]*> ", "", sig)
+    t = re.sub(r"'[a-z_0-9]+ ?", "", t)
+    m = re.match(r"(?:unsafe )?fn\((.*)\)(?: -> (.*))?$", t)
+    if not m:
+        return t
+    params, depth, cur = [], 0, ""
+    for ch in m.group(1):
+        if ch in "<([":
+            depth += 1
+        elif ch in ">)]":
+            depth -= 1
+        if ch == "," and depth == 0:
+            params.append(cur.strip())
+            cur = ""
+        else:
+            cur += ch
+    if cur.strip():
+        params.append(cur.strip())
+    return (tuple(sorted(params)), (m.group(2) or "()").strip())
+
+
 def resolve_renames(prog):
     """a pinned-tree function that is missing while exactly one new function of the same module / impl has its signature is
     taken to be that function under a new name: it is registered under the old name (so that rules anchored in it read
@@ -54,8 +80,13 @@ def resolve_renames(prog):
         if name in prog.fns or "{closure" in name:
             continue
         sig = known_sig(name)
-        parent = name.rsplit("::", 1)[0]
-        cands = [n for n in new if n.rsplit("::", 1)[0] == parent and sig is not None and prog.fns[n].get("sig") == sig and n not in out.values()]
+        par = lambda q: q.rsplit("::", 1)[0] if "::" in q else ""
+        parent = par(name)
+        cands = [n for n in new if par(n) == parent and sig is not None and prog.fns[n].get("sig") == sig and n not in out.values()]
+        if len(cands) != 1 and sig is not None:
+            # the same parameter types in another order (parameters reordered along with the rename)
+            want = _sig_bag(sig)
+            cands = [n for n in new if par(n) == parent and _sig_bag(prog.fns[n].get("sig")) == want and n not in out.values()]
         if len(cands) == 1:
             out[name] = cands[0]
     for old_, new_ in out.items():
